@@ -346,9 +346,9 @@ def worker_env(ndev=None):
     env.setdefault("JAX_PLATFORMS", "cpu")
     env["OMP_NUM_THREADS"] = "1"
     env["TF_CPP_MIN_LOG_LEVEL"] = "3"
-    flags = "--xla_cpu_multi_thread_eigen=false intra_op_parallelism_threads=1"
+    flags = "--xla_cpu_multi_thread_eigen=false"
     if ndev:
-        flags += f" --xla_force_host_platform_device_count={ndev}"
+        flags = f"--xla_force_host_platform_device_count={ndev} " + flags
     env["XLA_FLAGS"] = flags
     return env
 
